@@ -90,6 +90,14 @@ move=> n m A' H' S g v ps sd sy reg; split; first by [].
 Qed.
 Print Assumptions C03_kalman_solver_logp.
 
+(* the innovation variances are positive whenever the model covariance has positive leading principal minors (any real-closed
+   field), so 1/2 sum log(2 pi s_k) -- KalmanSolver.normalization -- is well defined *)
+Theorem C03_kalman_innovations_positive (R : rcfType) sq lt n m (Pinf : mat R) (A : seq (mat R)) (H : mat R) (dg : vec R) :
+  (forall k, (k <= n)%N -> 0 < \det (kalman_Sk m Pinf A H dg k)) ->
+  forall k, (k < n)%N -> 0 < nth 0 (map fst (kalman_gains (fops sq lt) n m Pinf A H dg)) k.
+Proof. exact: kalman_s_positive. Qed.
+Print Assumptions C03_kalman_innovations_positive.
+
 (* for time-invariant models (constant observation vector, commuting transition matrices, symmetric stationary covariance:
    all built-in quasiseparable kernels, their scalings, sums and products on scalar coordinates) that covariance is the
    matrix of Quasisep.to_symm_qsm (p = h Pinf a, q = h, d = h Pinf h) plus the diagonal noise, i.e. the matrix factorised
